@@ -235,11 +235,27 @@ def r15(ctx):
             pat.has(f"if {lo_} is None or {lo_} > E:\n    {lo_} = E", fn, stmts=True)
     if minmax_ok:
         ctx.proved("R15c", fl, name, sel["int"], "dtype for int", "get_dtype(min_edge, max_edge)")
+        # get_dtype's last resort is the platform integer, which need not hold the range either: the caller must check
+        lo_, hi_ = (dotted(a) for a in sel["int"].value.args)
+        guards = [i for i in walk_no_nested(fn) if isinstance(i, ast.If) and i.lineno > sel["int"].lineno and i.lineno < sv.lineno
+                  and "np.iinfo(" in ast.unparse(i.test) and lo_ in ast.unparse(i.test) and hi_ in ast.unparse(i.test)
+                  and any(isinstance(a, ast.Assign) and dotted(a.targets[0]) == DV and ast.unparse(a.value) in ("float", "np.dtype(float)", "np.float64", "object")
+                          for a in i.body)]
+        if guards:
+            ctx.proved("R15c", fl, name, guards[0], "integer range fits the chosen dtype",
+                       f"`{norm(guards[0].test, 80)}` switches to a float array when even the fallback integer type cannot hold the range")
+        else:
+            ctx.violation("R15c", fl, name, sel["int"], "integer range fits the chosen dtype",
+                          f"get_dtype falls back to the platform integer (int64) when no table row covers [{lo_}, {hi_}] - a negative "
+                          f"minimum with a maximum of 2**63 or more, or a sentinel beyond 2**64 - and nothing checks the result: "
+                          f"np.array(weights, dtype=int64) raises OverflowError for [[-1, 2**63]], inside the documented range")
     else:
         ctx.violation("R15c", fl, name, sel.get("int", fn), "dtype for int", "integer weights do not use get_dtype(min_edge, max_edge)")
     # dtype selection must not depend on weight magnitudes for non-integers
+    guard_assigns = {id(a) for i in walk_no_nested(fn) if isinstance(i, ast.If) and "np.iinfo(" in ast.unparse(i.test)
+                     for a in i.body if isinstance(a, ast.Assign)}
     for s in walk_no_nested(fn):
-        if isinstance(s, ast.Assign) and dotted(s.targets[0]) == DV and s not in sel.values():
+        if isinstance(s, ast.Assign) and dotted(s.targets[0]) == DV and s not in sel.values() and id(s) not in guard_assigns:
             ctx.violation("R15c", fl, name, s, f"extra dtype {norm(s.value, 30)}",
                           f"additional dtype choice `{norm(s, 60)}` outside the bool/float/int table")
     # get_dtype + table
@@ -324,6 +340,52 @@ def r15(ctx):
     ctx.floor("R15c", rows, 6, "dtype interval rows")
 
 
+def r15f(ctx):
+    """Numeric limits of the solver call that are visible in the code's shape."""
+    m = ctx.model
+    ctx.rule("R15f", "numeric limits: (1) scipy's linear_sum_assignment computes in float64, so integer weights are exact only "
+                     "below 2**53 - a dtype table row (or a documented range) beyond that promises more than the solver delivers; "
+                     "(2) the missing-pair sentinel `max(...) + 1` is strictly larger than the largest weight only in integer "
+                     "arithmetic - for float weights of 2**53 or more the + 1 is absorbed")
+    fn_info = m.func("graphtage.matching.min_weight_bipartite_matching")
+    fl = fn_info.file
+    tree = m.mods["graphtage.matching"]
+    tab = next((s_ for s_ in tree.body if isinstance(s_, (ast.Assign, ast.AnnAssign))
+                and dotted(s_.targets[0] if isinstance(s_, ast.Assign) else s_.target) == "INTEGER_DTYPE_INTERVALS"), None)
+    wide = []
+    if tab is not None:
+        for row in tab.value.elts:
+            try:
+                lo = eval(compile(ast.Expression(row.elts[0]), "<t>", "eval"), {"__builtins__": {}})
+                hi = eval(compile(ast.Expression(row.elts[1]), "<t>", "eval"), {"__builtins__": {}})
+            except Exception:
+                continue
+            if hi > 2 ** 53 or lo < -2 ** 53:
+                wide.append((row, ast.unparse(row.elts[2])))
+    if wide:
+        ctx.violation("R15f", fl, "<module>", wide[0][0], "solver precision",
+                      f"INTEGER_DTYPE_INTERVALS offers {', '.join(w[1].split('np.')[-1].rstrip(')') for w in wide)} (and the docstring promises defined "
+                      f"behaviour up to 2**64), but linear_sum_assignment converts every cost matrix to float64: weights above 2**53 "
+                      f"collapse and the returned matching is not minimal ([[2**53+1, 2**53], [2**53, 2**53+1]] returns the diagonal)")
+    else:
+        ctx.proved("R15f", fl, "<module>", tab, "solver precision", "no integer dtype wider than the solver's 53-bit mantissa is offered")
+    # float sentinel
+    fn = fn_info.node
+    sent = [s_ for s_ in walk_no_nested(fn) if isinstance(s_, (ast.Assign, ast.AnnAssign)) and s_.value is not None
+            and isinstance(s_.value, ast.BinOp) and isinstance(s_.value.op, ast.Add) and isinstance(s_.value.right, ast.Constant)
+            and isinstance(s_.value.left, ast.Call) and call_name(s_.value.left) == "max"]
+    for s_ in sent:
+        facts = [ast.unparse(t).replace(" ", "") for t, pol in flatten_conditions(dominating_conditions(s_)) if pol]
+        int_only = any("isint" in ft or "isnotfloat" in ft for ft in facts)
+        if int_only:
+            ctx.proved("R15f", fl, fn_info.short, s_, "sentinel exceeds the maximum for floats", "the + 1 sentinel is computed for integer weights only")
+        else:
+            ctx.violation("R15f", fl, fn_info.short, s_, "sentinel exceeds the maximum for floats",
+                          f"`{norm(s_.value, 50)}` is also used for float weights: from 2.0**53 upwards x + 1 == x, so the sentinel equals the "
+                          f"largest weight, the assert after it fires ([[2.0**53, None]]) and under -O the real pair is dropped as if it "
+                          f"were missing; near 1e308 the column sum overflows to inf and the solver reports an infeasible matrix")
+
+
 def _exact_memo(fn, name, params, dvar):
     """`name` is read from a mapping under a key that is exactly the tuple of both parameters, and every store into that
     mapping inside fn uses the same key and stores the table-loop's dtype variable (or the wide fallback)."""
@@ -360,5 +422,7 @@ def ancestors_of(n):
 
 def run(ctx):
     r15(ctx)
-    ctx.assume("optimality and one-to-one-ness are delegated to scipy.optimize.linear_sum_assignment (trusted)")
+    r15f(ctx)
+    ctx.assume("optimality and one-to-one-ness are delegated to scipy.optimize.linear_sum_assignment (trusted for weights whose "
+               "sums stay below 2**53; beyond that see the R15f finding)")
     ctx.assume("numpy.iinfo is read from the installed numpy (third-party, not the code under analysis)")
